@@ -27,8 +27,7 @@ class OpsMixin:
             return -v
         if isinstance(v, SymNum):
             conc = -v.conc if v.conc is not None else None
-            term = ("c", conc) if (conc is not None and v.term[0] == "c") else ("neg", v.term)
-            return SymNum(term, v.iv.neg(), conc)
+            return SymNum(("neg", v.term), v.iv.neg(), conc)
         if isinstance(v, ComplexVal):
             return v
         if isinstance(v, Obj):
@@ -494,7 +493,7 @@ class OpsMixin:
                 except ValueError:
                     self.raise_builtin("ValueError", "invalid literal for int()")
             if isinstance(v, SymNum):
-                raise Unsupported("int() of a symbolic real")
+                return self.quantise(v, "int")
             self.raise_builtin("TypeError", "int() argument must be a string or a real number")
         if name == "str":
             return self.to_str(args[0]) if args else ""
@@ -586,7 +585,7 @@ class OpsMixin:
                     self.raise_builtin("OverflowError", "cannot convert float infinity to integer")
                 return r if isinstance(r, int) else SymNum.of(r)
             if isinstance(v, SymNum):
-                raise Unsupported("round() of a symbolic real")
+                return self.quantise(v, "round")
             self.raise_builtin("TypeError", "type doesn't define __round__ method")
         if name == "repr":
             return self.to_repr(args[0])
@@ -973,6 +972,14 @@ class OpsMixin:
             raise Unsupported("call of module")
         raise Unsupported(f"external call {name}")
 
+    def quantise(self, v: SymNum, how: str) -> SymNum:
+        """round/int/floor/ceil/trunc of a symbolic real: an integer-valued, piecewise constant
+        function of the input -- kept as an opaque term and flagged (C01: never the real value)."""
+        self.flags.add("quantised-real")
+        lo = v.iv.lo - 1 if v.iv.lo != -math.inf else v.iv.lo
+        hi = v.iv.hi + 1 if v.iv.hi != math.inf else v.iv.hi
+        return SymNum(("round", v.term), IV(lo, hi, False, False), None)
+
     def _real(self, v, fname):
         if isinstance(v, bool) or isinstance(v, int):
             return SymNum.of(v)
@@ -1000,7 +1007,7 @@ class OpsMixin:
         if fn in ("floor", "ceil", "trunc"):
             v = self._real(args[0], fn)
             if v.conc is None:
-                raise Unsupported(f"math.{fn} of symbolic real")
+                return self.quantise(v, fn)
             return getattr(math, fn)(v.conc)
         if fn in ("isnan", "isinf", "isfinite"):
             v = self._real(args[0], fn)
@@ -1008,7 +1015,12 @@ class OpsMixin:
                 return getattr(math, fn)(v.conc)
             return fn == "isfinite"
         if fn == "isclose":
-            raise Unsupported("math.isclose")
+            a, b = self._real(args[0], fn), self._real(args[1], fn)
+            if a.conc is not None and b.conc is not None:
+                kw = {k: (v.conc if isinstance(v, SymNum) else v) for k, v in kwargs.items()}
+                return math.isclose(a.conc, b.conc, **kw)
+            self.flags.add("closeness-test")
+            return Maybe(f"isclose({a!r}, {b!r})")
         if fn in ("fabs",):
             return self.call_builtin("abs", [self._real(args[0], fn)], {})
         if fn == "copysign":
